@@ -36,7 +36,10 @@ type SyncSchedScenario struct {
 	Tape      []int        `json:"tape"`
 	Canonical bool         `json:"canonical,omitempty"`
 	RangeErrs int          `json:"range_errs,omitempty"` // the getter fails the first N range requests
-	Span      int          `json:"span,omitempty"`       // > 0: headers verify at most Span heights ahead (heads further away need bifurcation)
+	// Fresh: the schedule starts while the network's head is still recent, so Head() answers from what the Syncer
+	// holds without asking the peers; Head() results are then judged for monotonicity instead of against the peers
+	Fresh bool `json:"fresh,omitempty"`
+	Span  int  `json:"span,omitempty"` // > 0: headers verify at most Span heights ahead (heads further away need bifurcation)
 }
 
 func genSyncSched(t *rapid.T) SyncSchedScenario {
@@ -79,6 +82,7 @@ func genSyncSched(t *rapid.T) SyncSchedScenario {
 	s.Tape = rapid.SliceOfN(rapid.IntRange(0, 19), 0, 200).Draw(t, "tape")
 	s.RangeErrs = rapid.SampledFrom([]int{0, 0, 0, 1, 2}).Draw(t, "rangeerrs")
 	s.Span = rapid.SampledFrom([]int{0, 0, 1, 2}).Draw(t, "span")
+	s.Fresh = rapid.IntRange(0, 3).Draw(t, "fresh") == 0
 	return s
 }
 
@@ -132,7 +136,11 @@ func runSyncSched(t *testing.T, s SyncSchedScenario) (res Result) {
 		}
 		// the network moves on; the stored head is not recent any more
 		e.getter.SetTip(tip)
-		time.Sleep(time.Duration(s.Net+grows)*delta + 5*time.Second)
+		if s.Fresh {
+			time.Sleep(time.Duration(s.Net) * delta) // the network's head is stamped "now"
+		} else {
+			time.Sleep(time.Duration(s.Net+grows)*delta + 5*time.Second)
+		}
 
 		sc := sched.New()
 		sc.Canonical = s.Canonical
@@ -274,6 +282,20 @@ func runSyncSched(t *testing.T, s SyncSchedScenario) (res Result) {
 				// the clock stands still during the schedule and nothing the Syncer holds is recent, so every
 				// caller depends on the (possibly shared) head request: it must come back with the peers' head,
 				// whoever of the concurrent callers and handlers got to apply it first
+				if s.Fresh {
+					// answered from the subjective head: never below what an earlier, finished Head() returned or an
+					// earlier, finished delivery made the Syncer accept
+					if o.Head < prefill || o.Head > e.getter.Tip() {
+						res.failf("%s: Syncer.Head returned height %d outside [%d, %d]", tag, o.Head, prefill, e.getter.Tip())
+						return
+					}
+					if j := a.After - 1; j >= 0 && j < i && obs[j].Err == "" && obs[j].Head > o.Head &&
+						(s.Actors[j].Kind == "head" || (s.Actors[j].Kind == "gossip" && s.Actors[j].Adv == "")) {
+						res.failf("%s: Syncer.Head returned height %d after %s %d had finished with height %d: the head went backwards", tag, o.Head, s.Actors[j].Kind, j, obs[j].Head)
+						return
+					}
+					break
+				}
 				if o.Head < o.TipBefore || o.Head > e.getter.Tip() {
 					res.failf("%s: Syncer.Head returned height %d, the trusted peers were at %d when it was called and are at %d now", tag, o.Head, o.TipBefore, e.getter.Tip())
 					return
@@ -375,6 +397,8 @@ func TestC03Sched(t *testing.T) {
 //	4: store [1,2], network at 5; the tip and a forged header of height 4 are gossiped concurrently
 //	5: store [1,2], network at 5; header 4 is gossiped, then header 5; the getter fails the first range request
 //	6: store [1,2], network at 4, trust span 1; two concurrent Head() callers (shared request, bifurcation)
+//	7: store [1,2], network at 5 and still recent; the tip is gossiped, then two Head() callers one after the other
+//	   (answered from the subjective head while the sync runs: the second must not fall below the first)
 var c03EnumConfigs = []SyncSchedScenario{
 	{Prefill: 2, Net: 3, Actors: []SchedActor{{Kind: "gossip", K: 3}, {Kind: "gossip", K: 1, Adv: "twin", After: 1}}},
 	{Prefill: 2, Net: 1, Actors: []SchedActor{{Kind: "gossip", K: 1}, {Kind: "head"}}},
@@ -383,6 +407,7 @@ var c03EnumConfigs = []SyncSchedScenario{
 	{Prefill: 2, Net: 3, Actors: []SchedActor{{Kind: "gossip", K: 3}, {Kind: "gossip", K: 2, Adv: "forged"}}},
 	{Prefill: 2, Net: 3, RangeErrs: 1, Actors: []SchedActor{{Kind: "gossip", K: 2}, {Kind: "gossip", K: 3, After: 1}}},
 	{Prefill: 2, Net: 2, Span: 1, Actors: []SchedActor{{Kind: "head"}, {Kind: "head"}}},
+	{Prefill: 2, Net: 3, Fresh: true, Actors: []SchedActor{{Kind: "gossip", K: 3}, {Kind: "head", After: 1}, {Kind: "head", After: 2}}},
 }
 
 func TestC03Enum(t *testing.T) {
@@ -395,7 +420,7 @@ func TestC03Enum(t *testing.T) {
 		c := *s.Sched
 		c.Tape, c.Canonical = tape, true
 		return SyncScenario{Sched: &c}
-	}, runC03, map[int]bool{0: true, 1: true, 3: true, 4: true, 5: true})
+	}, runC03, map[int]bool{0: true, 1: true, 3: true, 4: true, 5: true, 7: true})
 }
 
 // TestC07Sched runs the schedule engine for C07: honest deliveries and Head() callers only (plus getter
